@@ -295,22 +295,22 @@ fn minimise(case: &Case, key: &Value, refs: &HashMap<String, (String, String)>, 
         let mut c = best.clone();
         c.job["want_trace"] = json!(true);
         if let Some(v) = still_fails(&c, &mut attempts) {
-            if let Some(script) = v["script"].as_object() {
-                let mut cur: BTreeMap<usize, usize> = script
+            if let Some(script) = v["script"].as_array() {
+                let mut cur: Vec<(usize, usize)> = script
                     .iter()
-                    .filter_map(|(k, t)| Some((k.parse().ok()?, t.as_u64()? as usize)))
+                    .filter_map(|p| Some((p.get(0)?.as_u64()? as usize, p.get(1)?.as_u64()? as usize)))
                     .collect();
                 let mut s = best.clone();
                 s.job["sched"] = json!({"strategy":"script","decisions":cur});
                 if still_fails(&s, &mut attempts).is_some() {
                     best = s;
-                    let keys: Vec<usize> = cur.keys().copied().collect();
+                    let keys: Vec<usize> = cur.iter().map(|(k, _)| *k).collect();
                     for k in keys.into_iter().rev() {
                         if attempts > 220 {
                             break;
                         }
                         let mut trial = cur.clone();
-                        trial.remove(&k);
+                        trial.retain(|(kk, _)| *kk != k);
                         let mut s = best.clone();
                         s.job["sched"] = json!({"strategy":"script","decisions":trial});
                         if still_fails(&s, &mut attempts).is_some() {
@@ -516,8 +516,13 @@ pub fn run(tier: &str, seed: u64, replay: Option<String>) -> i32 {
     let mut fired: BTreeMap<String, u64> = BTreeMap::new();
     let mut freeruns = 0u64;
     let mut samples = vec![];
+    let mut harness_errors: Vec<String> = vec![];
     for (i, (c, o)) in cases.iter().zip(outs.iter()).enumerate() {
         if let Outcome::Result(v) = o {
+            if v["class"] == "harness_error" {
+                harness_errors.push(v["detail"].as_str().unwrap_or("").to_string());
+                continue;
+            }
             let rep = &v["report"];
             steps += rep["decisions"].as_u64().unwrap_or(0);
             ops_executed += v["ops"].as_array().map(|a| a.iter().map(|t| t.as_array().map(|x| x.len()).unwrap_or(0)).sum::<usize>()).unwrap_or(0) as u64;
@@ -590,7 +595,7 @@ pub fn run(tier: &str, seed: u64, replay: Option<String>) -> i32 {
         seed,
         level: "exploration".into(),
         violations,
-        harness_errors: vec![],
+        harness_errors: harness_errors.clone(),
     };
     let verdict = rep.conclude();
     let wall = t0.elapsed().as_secs_f64();
@@ -614,6 +619,7 @@ pub fn run(tier: &str, seed: u64, replay: Option<String>) -> i32 {
     extra.insert("seeds_per_hour".into(), json!((cases.len() as f64 / wall.max(0.001) * 3600.0) as u64));
     extra.insert("simulated_time".into(), json!("n/a - no timers in the system; scheduler steps reported instead; the wall-clock seam is varied in fresh-process cases"));
     extra.insert("components".into(), report::components());
+    extra.insert("determinism_selftest".into(), report::selftest_summary());
     extra.insert("miri_tier".into(), json!("run by bin/check C05 thorough (see miri section of the log)"));
     Evidence {
         property: "C05".into(),
@@ -640,6 +646,9 @@ pub fn run(tier: &str, seed: u64, replay: Option<String>) -> i32 {
         cases.len(), steps, interleavings.len(), nontrivial_sched.len(), verdict.new_violations, verdict.known_hit.len(), wall
     );
     let _ = BTreeSet::<u8>::new();
+    if !harness_errors.is_empty() {
+        return 2;
+    }
     if verdict.new_violations > 0 {
         1
     } else {
